@@ -90,6 +90,19 @@ int cmd_mt(int argc, char** argv) {
                 }
             }
             r["reads"] = reads;
+            // inputs the library's own encoder never produces (chunked strings, indefinite containers, widened heads, unknown members
+            // that are skipped): every thread decodes them with its own reader; the result must not depend on what other threads do
+            if (cases[i].contains("foreign")) {
+                json fr = json::array();
+                for (auto& fp : cases[i]["foreign"]) {
+                    json job = {{"id", fp}, {"path", fp}, {"stream", (i & 1) ? "ifstream" : "sstream"}, {"dump", "full"}, {"tables", true}, {"render", true}};
+                    json rr = run_read_job(job);
+                    rr.erase("cpu");
+                    rr.erase("alloc_max");
+                    fr.push_back(rr);
+                }
+                r["foreign_reads"] = fr;
+            }
             // two readers alive on this thread at the same time, used alternately block by block: each must return what it returns when it
             // is the only reader (independent instances share nothing, whichever thread they live on)
             if (!reads.empty() && reads[0].value("hdr", json()) == "ok" && reads[0].value("end", json()) == "eof") {
